@@ -10,7 +10,7 @@ outgoing edges -- provided add_transition inserts *directed* edges.
 """
 import ast
 
-from ..core import AnalysisError, const_str, dotted, norm, short
+from ..core import AnalysisError, class_methods, const_str, dotted, norm, short
 from ..report import Result
 from ..mustflow import MustFlow
 from .. import regex, nfa_model, levels
@@ -149,7 +149,7 @@ def check(repo, tier="quick"):
         res.check(w1 is None and w2 is None, "C18.d", key, src, det, by="DFA equivalence over %d symbols" % len(alpha))
     res.floor("C18.a", 15)
     res.floor("C18.b", 4)
-    res.floor("C18.c", 6)
+    res.floor("C18.c", 9)
     res.floor("C18.d", len(CORPUS) + 3)
     res.assumptions = [
         "the recursive-descent parser's reading of a pattern equals the reference grammar's (precedence is not decided here)",
@@ -219,6 +219,57 @@ def simulation_shape(repo, res, m):
                 if isinstance(c, ast.Call) and dotted(c.func) == "%s.follow" % v and c.args:
                     follows.add(dotted(c.args[0]))
     res.check({symp, "WILDCARD"} <= follows, "C18.c", "match_symbol:symbol-and-wildcard", "%s:Matcher.match_symbol" % m.rel, "match_symbol steps on %s for every current state (needs both the symbol and WILDCARD)" % sorted(x for x in follows if x), by="follow(symbol) and follow(WILDCARD) over self.cur_states")
+    # both steps are unconditional and accumulate into the set that becomes cur_states
+    stored_from = set(dotted(a.value) for a in ast.walk(ms) if isinstance(a, ast.Assign) and any(norm(t) == "self.cur_states" for t in a.targets))
+    uncond = {}
+    for c in ast.walk(ms):
+        if isinstance(c, ast.Call) and isinstance(c.func, ast.Attribute) and c.func.attr == "follow" and c.args and dotted(c.args[0]) in (symp, "WILDCARD"):
+            okc = True
+            why = ""
+            q, p = c, getattr(c, "_parent", None)
+            acc = None
+            if isinstance(p, ast.Call) and isinstance(p.func, ast.Attribute) and p.func.attr == "update" and len(p.args) == 1 and p.args[0] is c:
+                acc = dotted(p.func.value)
+            elif isinstance(p, ast.AugAssign) and isinstance(p.op, ast.BitOr) and p.value is c:
+                acc = dotted(p.target)
+            if acc is None or acc not in stored_from:
+                okc, why = False, "its result is not accumulated into the set stored to self.cur_states"
+            while p is not None and p is not ms:
+                if isinstance(p, (ast.If, ast.While, ast.Try, ast.IfExp)):
+                    okc, why = False, "it is conditional (`%s`)" % short(getattr(p, "test", p), 50)
+                if isinstance(p, ast.For) and not (norm(p.iter) == "self.cur_states" and dotted(c.func.value) == dotted(p.target)):
+                    okc, why = False, "it is not applied to every member of self.cur_states"
+                q, p = p, getattr(p, "_parent", None)
+            k = dotted(c.args[0])
+            uncond[k] = uncond.get(k, False) or okc
+            if not okc:
+                uncond.setdefault(k + ":why", why)
+    res.check(uncond.get(symp) and uncond.get("WILDCARD"), "C18.c", "match_symbol:steps-unconditional", "%s:Matcher.match_symbol" % m.rel, "the %s step of match_symbol is not taken on every call: %s -- an alternative reached only through that step is dropped" % ("wildcard" if not uncond.get("WILDCARD") else "symbol", uncond.get("WILDCARD:why") or uncond.get(symp + ":why") or "not found"), by="both steps run for every current state on every call")
+    # the matcher's observable state is (nfa, cur_states) only; queries are pure and return fresh objects
+    stores = {}
+    for name_, f_ in class_methods(matcher).items():
+        for a in ast.walk(f_):
+            tg = a.targets if isinstance(a, ast.Assign) else [a.target] if isinstance(a, (ast.AugAssign, ast.AnnAssign)) else []
+            for t in tg:
+                for y in ast.walk(t):
+                    if isinstance(y, ast.Attribute) and isinstance(y.value, ast.Name) and y.value.id == "self" and not isinstance(y.ctx, ast.Load):
+                        stores.setdefault(y.attr, set()).add(name_)
+            if isinstance(a, ast.Call) and dotted(a.func) == "setattr":
+                stores.setdefault("<setattr>", set()).add(name_)
+    allowed = {"nfa": {"__init__"}, "cur_states": {"__init__", "match_symbol"}}
+    extra = {k: sorted(v) for k, v in stores.items() if not v <= allowed.get(k, set())}
+    res.check(not extra and set(allowed) <= set(stores), "C18.c", "Matcher:state-is-nfa-and-cur_states", "%s:Matcher" % m.rel, "Matcher keeps further state %s: answers of is_complete/valid_next_symbols must be functions of the NFA and the current state set alone (a cached answer can go stale or be edited by a caller)" % extra, by="only self.nfa (constructor) and self.cur_states (constructor, match_symbol) are ever stored")
+    vn = _method(matcher, "valid_next_symbols")
+    fresh = True
+    rets = [r for r in ast.walk(vn) if isinstance(r, ast.Return)]
+    for r in rets:
+        if isinstance(r.value, ast.Name):
+            ds = [a for a in ast.walk(vn) if isinstance(a, ast.Assign) and any(isinstance(t, ast.Name) and t.id == r.value.id for t in a.targets)]
+            if not ds or not all((isinstance(d.value, ast.Call) and dotted(d.value.func) in ("set", "frozenset")) or isinstance(d.value, (ast.Set, ast.SetComp)) for d in ds):
+                fresh = False
+        elif not (isinstance(r.value, (ast.Set, ast.SetComp)) or (isinstance(r.value, ast.Call) and dotted(r.value.func) in ("set", "frozenset"))):
+            fresh = False
+    res.check(bool(rets) and fresh, "C18.c", "valid_next_symbols:fresh-result", "%s:Matcher.valid_next_symbols" % m.rel, "valid_next_symbols must return a set built during the call (callers such as make_matching_sequence edit the returned set in place)", by="returns a set constructed in the call")
     # no store to cur_states on a path that returns False
     bad = []
 
